@@ -1,6 +1,6 @@
 package main
 
-// C18 — numeric aggregates equal the reference folds over the numeric elements.
+// C18 — numeric aggregates equal the reference folds over the numeric elements (SX path normal form + numeric folding).
 
 import (
 	"go/ast"
@@ -14,12 +14,13 @@ import (
 func init() {
 	register(&Property{
 		ID: "C18",
-		Explanation: "Structure of the nine aggregates: identities are constant-evaluated (0, 1, MaxInt, MinInt, >=MaxFloat64, <=-MaxFloat64); Sum/Prod/IntSum/IntProd are reduced to the loop normal form of C14 and must accumulate " +
-			"with one operator over exactly the int (as float64) and float64 elements in float64 (Int*: the int elements in int); the Min/Max reducers must compare accumulator and element in one numeric domain and return the smaller (larger) operand on both arms " +
-			"(contradiction rule between the int and float arm); the presence flag selects between the fold and 0; Avg = Sum/float64(Count); all are write-free (E3). Floating-point rounding and overflow are not decided.",
+		Explanation: "Decided on the symbolic path normal form (SX). Sum/Prod/IntSum/IntProd: one loop over the receiver's spine whose iteration paths update the accumulator by exactly `acc OP value` for elements that pass the kind test for int (converted to float64 in the float folds) resp. float64, " +
+			"and leave it unchanged otherwise; the accumulator starts at the identity (0 / 1, constant-evaluated), has the fold's type and is what is returned. Min/Max/IntMin/IntMax: the reducer handed to Reduce/ReduceInts is folded numerically over sample accumulator/element values " +
+			"(negative, fractional, mixed int/float) and must return the smaller (larger) of the two in the fold's domain on every sample — so comparisons in a lossy domain and arms of opposite direction are caught whatever their spelling; it sets the presence flag on every path, " +
+			"the identity is MaxInt / MinInt / >= MaxFloat64 / <= -MaxFloat64, and the flag selects between the fold and 0. Avg = Sum()/float64(Count()); all are write-free (E3). Floating-point rounding and overflow are not decided.",
 		Rules: []Rule{
 			{ID: "C18.R1", Doc: "fold identities: sums 0, products 1, IntMin MaxInt, IntMax MinInt, Min >= MaxFloat64, Max <= -MaxFloat64 (constant-evaluated)", Run: c18Folds},
-			{ID: "C18.R2", Doc: "operators and reducer direction: +/* on both arms in float64; Min/IntMin return the smaller, Max/IntMax the larger, same direction on every arm", Run: func(c *Ctx) {}},
+			{ID: "C18.R2", Doc: "operators and reducer direction: acc OP value per selected element; reducers return the smaller/larger of accumulator and element on all numeric samples", Run: func(c *Ctx) {}},
 			{ID: "C18.R3", Doc: "empty => 0 via a presence flag set on every reducer invocation; Avg = Sum()/float64(Count())", Run: c18Avg},
 			{ID: "C18.R4", Doc: "selection: Int* fold exactly the int elements; Sum/Prod fold int and float64 elements", Run: func(c *Ctx) {}},
 			{ID: "C18.R5", Doc: "PURE: no aggregate writes the list", Run: func(c *Ctx) {
@@ -31,18 +32,13 @@ func init() {
 }
 
 func c18Folds(c *Ctx) {
-	ct := c.Inv().List()
-	if ct == nil {
-		c.Ob("C18.R1", "list", token.NoPos).Missing("no list container")
-		return
-	}
 	n := 0
 	for _, spec := range []struct {
 		name   string
 		op     token.Token
 		ident  int64
 		intFam bool
-	}{{"Sum", token.ADD_ASSIGN, 0, false}, {"Prod", token.MUL_ASSIGN, 1, false}, {"IntSum", token.ADD_ASSIGN, 0, true}, {"IntProd", token.MUL_ASSIGN, 1, true}} {
+	}{{"Sum", token.ADD, 0, false}, {"Prod", token.MUL, 1, false}, {"IntSum", token.ADD, 0, true}, {"IntProd", token.MUL, 1, true}} {
 		name := "(*list)." + spec.name
 		fd := c.NeedDecl("C18.R2", name)
 		if fd == nil {
@@ -67,183 +63,6 @@ func c18Folds(c *Ctx) {
 	c.R.Floor("C18.R1", n, 8)
 }
 
-// c18Accumulate: acc (named result or local) starts at ident; the single spine loop accumulates with op over the right elements.
-func c18Accumulate(c *Ctx, fd *ast.FuncDecl, name string, op token.Token, ident int64, intFam bool) {
-	sl := spineLoops(c, fd)
-	if len(sl) != 1 || len(allLoops(fd)) != 1 {
-		c.Ob("C18.R2", name+"/loop", fd.Pos()).Fail("expected one range loop over the receiver's spine accumulating in the result type; found %d loops (%d over the spine) — the fold is not computed directly over the elements", len(allLoops(fd)), len(sl))
-		return
-	}
-	l := sl[0]
-	if why := loopEarlyExit(l.Stmt, true); why != "" {
-		c.Ob("C18.R2", name+"/loop", l.Stmt.Pos()).Fail("%s inside the fold loop", why)
-		return
-	}
-	nf := c.loopNormalForm(l.Stmt.Body)
-	if len(nf.Undecided) > 0 {
-		c.Ob("C18.R2", name+"/loop", l.Stmt.Pos()).Undecided("loop body outside the understood vocabulary: %v", nf.Undecided)
-		return
-	}
-	// accumulator: the variable assigned by the actions
-	var acc types.Object
-	wantArms := map[string]bool{"int": true}
-	if !intFam {
-		wantArms["float"] = true
-	}
-	gotArms := map[string]bool{}
-	for _, a := range nf.Actions {
-		as, ok := a.Stmt.(*ast.AssignStmt)
-		if !ok || len(as.Lhs) != 1 || len(as.Rhs) != 1 {
-			c.Ob("C18.R2", name+"/action", a.Stmt.Pos()).Fail("statement in the fold loop is not an accumulation")
-			return
-		}
-		if acc == nil {
-			acc = c.obj(as.Lhs[0])
-		}
-		if acc == nil || c.obj(as.Lhs[0]) != acc {
-			c.Ob("C18.R2", name+"/action", a.Stmt.Pos()).Fail("fold loop assigns to more than one variable")
-			return
-		}
-		var operand ast.Expr
-		switch {
-		case as.Tok == op:
-			operand = as.Rhs[0]
-		case as.Tok == token.ASSIGN:
-			// acc = acc OP x  /  acc = x OP acc
-			be, ok := unparen(as.Rhs[0]).(*ast.BinaryExpr)
-			binop := map[token.Token]token.Token{token.ADD_ASSIGN: token.ADD, token.MUL_ASSIGN: token.MUL}[op]
-			if ok && be.Op == binop && c.obj(be.X) == acc {
-				operand = be.Y
-			} else if ok && be.Op == binop && c.obj(be.Y) == acc {
-				operand = be.X
-			}
-		}
-		if operand == nil {
-			c.Ob("C18.R2", name+"/operator", a.Stmt.Pos()).Fail("accumulation does not use the operator %s of this fold (found %s)", op, as.Tok)
-			return
-		}
-		oks, negOks, others := guardAtoms(c, a.Guard)
-		if len(oks) != 1 || len(others) != 0 {
-			c.Ob("C18.R4", name+"/guard", a.Stmt.Pos()).Fail("accumulation must be guarded by exactly one successful kind test")
-			return
-		}
-		kt := findTest(nf, oks[0])
-		if kt == nil || kt.Val == nil {
-			c.Ob("C18.R4", name+"/guard", a.Stmt.Pos()).Fail("guard is not the ok of a kind test binding a value")
-			return
-		}
-		kind := c.testKind(kt, l.Value)
-		if _, isBasic := kt.T.(*types.Basic); !isBasic || !wantArms[kind] {
-			c.Ob("C18.R4", name+"/guard", a.Stmt.Pos()).Fail("accumulates elements of kind %q; this fold is over %v", kind, keysOf(wantArms))
-			return
-		}
-		// the failed tests in the guard must be of the other wanted kinds only (else-if chain)
-		for _, no := range negOks {
-			nk := findTest(nf, no)
-			if nk == nil || !wantArms[c.testKind(nk, l.Value)] {
-				c.Ob("C18.R4", name+"/guard", a.Stmt.Pos()).Fail("accumulation is skipped for elements failing an unrelated test")
-				return
-			}
-		}
-		if gotArms[kind] {
-			c.Ob("C18.R4", name+"/guard", a.Stmt.Pos()).Fail("kind %q is accumulated twice", kind)
-			return
-		}
-		gotArms[kind] = true
-		// operand: val (same type as acc) or float64(val) for the int arm of a float fold
-		operand = unparen(operand)
-		okOperand := false
-		if c.obj(operand) == kt.Val && types.Identical(kt.T, acc.Type()) {
-			okOperand = true
-		} else if call, ok := operand.(*ast.CallExpr); ok && len(call.Args) == 1 && c.obj(call.Args[0]) == kt.Val {
-			if tv, ok := c.Info.Types[call.Fun]; ok && tv.IsType() && types.Identical(tv.Type, acc.Type()) && !intFam && kind == "int" {
-				okOperand = true
-			}
-		}
-		c.Ob("C18.R2", name+"/arm-"+kind, a.Stmt.Pos()).Check(okOperand, "acc "+op.String()+" the tested "+kind+" value in the accumulator's type "+shortType(acc.Type()),
-			"operand of the accumulation is not the tested element value converted to "+shortType(acc.Type()))
-	}
-	c.Ob("C18.R4", name+"/selection", l.Stmt.Pos()).Check(len(gotArms) == len(wantArms), "folds exactly the element kinds "+sprint(keysOf(wantArms)), "folds kinds "+sprint(keysOf(gotArms))+", expected "+sprint(keysOf(wantArms)))
-	if acc == nil {
-		return
-	}
-	// accumulator type
-	wantT := types.Typ[types.Float64]
-	if intFam {
-		wantT = types.Typ[types.Int]
-	}
-	c.Ob("C18.R2", name+"/domain", fd.Pos()).Check(types.Identical(acc.Type(), wantT), "accumulates in "+shortType(wantT), "accumulates in "+shortType(acc.Type())+", not in "+shortType(wantT))
-	// identity: statements before the loop
-	ob := c.Ob("C18.R1", name+"/identity", fd.Pos())
-	val, known := int64(0), false
-	isNamedResult := false
-	if fd.Type.Results != nil {
-		for _, f := range fd.Type.Results.List {
-			for _, nm := range f.Names {
-				if c.Info.Defs[nm] == acc {
-					isNamedResult, known = true, true
-				}
-			}
-		}
-	}
-	for _, s := range fd.Body.List {
-		if s == ast.Stmt(l.Stmt) {
-			break
-		}
-		switch x := s.(type) {
-		case *ast.AssignStmt:
-			for i, lh := range x.Lhs {
-				if c.obj(lh) == acc && i < len(x.Rhs) {
-					if tv, ok := c.Info.Types[x.Rhs[i]]; ok && tv.Value != nil {
-						if f, ok2 := constant.Float64Val(constant.ToFloat(tv.Value)); ok2 || true {
-							val, known = int64(f), f == math.Trunc(f)
-						}
-					} else {
-						known = false
-					}
-				}
-			}
-		case *ast.DeclStmt:
-			if gd, ok := x.Decl.(*ast.GenDecl); ok {
-				for _, sp := range gd.Specs {
-					if vs, ok := sp.(*ast.ValueSpec); ok {
-						for i, nm := range vs.Names {
-							if c.Info.Defs[nm] == acc {
-								known, val = true, 0
-								if i < len(vs.Values) {
-									if tv, ok := c.Info.Types[vs.Values[i]]; ok && tv.Value != nil {
-										f, _ := constant.Float64Val(constant.ToFloat(tv.Value))
-										val, known = int64(f), f == math.Trunc(f)
-									} else {
-										known = false
-									}
-								}
-							}
-						}
-					}
-				}
-			}
-		}
-	}
-	_ = isNamedResult
-	if !known {
-		ob.Undecided("cannot evaluate the accumulator's initial value")
-	} else {
-		ob.Check(val == ident, "fold starts at "+itoa(int(ident)), "fold starts at "+itoa(int(val))+", the identity is "+itoa(int(ident)))
-	}
-	// returned value is the accumulator
-	okRet := true
-	for _, r := range returnsOf(fd.Body) {
-		if len(r.Results) == 0 && isNamedResult {
-			continue
-		}
-		if len(r.Results) != 1 || c.obj(r.Results[0]) != acc {
-			okRet = false
-		}
-	}
-	c.Ob("C18.R2", name+"/result", fd.Pos()).Check(okRet, "returns the accumulator", "returns something other than the accumulator")
-}
-
 func sprint(s []string) string {
 	out := "["
 	for i, x := range s {
@@ -255,218 +74,407 @@ func sprint(s []string) string {
 	return out + "]"
 }
 
-// c18MinMax: `acc := self.Reduce*(IDENT, func(acc, item) {present = true; ... })`; if present {return acc} else {return 0}
-func c18MinMax(c *Ctx, fd *ast.FuncDecl, name string, smaller, intFam bool) {
-	// find the reduce call with a function literal
-	var call *ast.CallExpr
-	var lit *ast.FuncLit
-	inspectNoLit(fd.Body, func(n ast.Node) bool {
-		if ce, ok := n.(*ast.CallExpr); ok && len(ce.Args) == 2 {
-			if fl, ok := unparen(ce.Args[1]).(*ast.FuncLit); ok && call == nil {
-				call, lit = ce, fl
-			}
+// elemValueOfKind: t is the value of the range element seen as basic type T: getVal(elem).(T)#0, or getVal(elem).(T) under a type switch.
+func (v *sxView) elemValue(t Term, l *LoopRec) (types.Type, bool) {
+	var as TAssert
+	switch x := t.(type) {
+	case TProj:
+		a, ok := x.X.(TAssert)
+		if !ok || x.K != 0 {
+			return nil, false
 		}
+		as = a
+	case TAssert:
+		as = x
+	default:
+		return nil, false
+	}
+	if !v.isElemVal(as.X, l) {
+		return nil, false
+	}
+	return as.To, true
+}
+
+// isElemVal: t is getVal() of the loop's current element.
+func (v *sxView) isElemVal(t Term, l *LoopRec) bool {
+	e, ok := v.valueOf(t)
+	if !ok {
+		return false
+	}
+	if l.Value != nil && isParamTerm(e, l.Value) {
 		return true
-	})
-	if call == nil {
-		c.Ob("C18.R2", name+"/reducer", fd.Pos()).Undecided("no Reduce call with a function literal found")
+	}
+	ix, ok := e.(TIndex)
+	return ok && v.isRecvSpine(ix.X) && l.Key != nil && isParamTerm(ix.I, l.Key)
+}
+
+func c18Accumulate(c *Ctx, fd *ast.FuncDecl, name string, op token.Token, ident int64, intFam bool) {
+	lob := c.Ob("C18.R2", name+"/loop", fd.Pos())
+	paths, why := c.runPaths(fd)
+	if why != "" {
+		lob.Undecided("body outside the path vocabulary: %s", why)
 		return
 	}
-	sel, ok := unparen(call.Fun).(*ast.SelectorExpr)
-	callee := c.callee(call)
-	if !ok || !c.isSelf(fd, sel.X) || callee == nil {
-		c.Ob("C18.R4", name+"/fold", call.Pos()).Fail("the fold is not a Reduce over the receiver itself")
+	v := c.view(fd)
+	p, loop, msg := singleLoopPath(paths)
+	if msg != "" {
+		lob.Fail("expected one range loop over the receiver's spine accumulating in the result type (%s) — the fold is not computed directly over the elements", msg)
+		return
+	}
+	if loop.Range == nil || !v.isRecvSpine(loop.Over) {
+		lob.Fail("the fold loop does not range over the receiver's own spine")
+		return
+	}
+	if len(p.Effects()) != 1 || p.End != "return" || len(p.Vals) != 1 {
+		lob.Fail("the aggregate has effects besides its fold loop")
+		return
+	}
+	accT, ok := p.Vals[0].(TLoop)
+	if !ok || accT.ID != loop.ID {
+		lob.Fail("the returned value is not the loop's accumulator")
+		return
+	}
+	acc := accT.Obj
+	lob.Ok("one range loop over the receiver's spine; the accumulator is what is returned")
+	wantT := types.Typ[types.Float64]
+	if intFam {
+		wantT = types.Typ[types.Int]
+	}
+	c.Ob("C18.R2", name+"/domain", fd.Pos()).Check(types.Identical(acc.Type(), wantT), "accumulates in "+shortType(wantT), "accumulates in "+shortType(acc.Type())+", not in "+shortType(wantT)+" (integers wrap / fractions are lost)")
+	// identity
+	iob := c.Ob("C18.R1", name+"/identity", fd.Pos())
+	init, has := loop.Init[acc]
+	if !has {
+		init = TConst{constant.MakeInt64(0)} // named result never assigned before the loop
+	}
+	if f, ok := c.constNumberTerm(init); !ok {
+		iob.Undecided("cannot evaluate the accumulator's initial value %s", c.termStr(init))
+	} else {
+		iob.Check(f == float64(ident), "fold starts at "+itoa(int(ident)), "fold starts at "+c.termStr(init)+", the identity is "+itoa(int(ident)))
+	}
+	// iteration paths
+	wantArms := map[string]bool{"int": true}
+	if !intFam {
+		wantArms["float"] = true
+	}
+	got := map[string]bool{}
+	for _, ip := range loop.Iter {
+		if ip.End != "fall" && ip.End != "continue" {
+			c.Ob("C18.R2", name+"/iteration", posOfNode(ip.Node)).Fail("%s inside the fold loop", ip.End)
+			return
+		}
+		if len(ip.Effects()) != 0 {
+			c.Ob("C18.R2", name+"/iteration", loop.Node.Pos()).Fail("the fold loop has an effect besides the accumulation")
+			return
+		}
+		// selected kind on this path
+		sel := ""
+		for _, cd := range ip.Conds() {
+			op2, T, isTest := kindTestOf(cd.T)
+			if !isTest || !v.isElemVal(op2, loop) {
+				c.Ob("C18.R4", name+"/guard", loop.Node.Pos()).Fail("the fold loop decides on %s, which is not a kind test of the element's value", c.termStr(cd.T))
+				return
+			}
+			if cd.Truth {
+				k := c.kindOfType(T)
+				if _, isBasic := T.(*types.Basic); !isBasic || !wantArms[k] {
+					c.Ob("C18.R4", name+"/guard", loop.Node.Pos()).Fail("elements of kind %q are accumulated; this fold is over %v", k, keysOf(wantArms))
+					return
+				}
+				sel = k
+			}
+		}
+		end, ok := ip.Env[acc]
+		if !ok {
+			end = TLoop{acc, loop.ID}
+		}
+		if sel == "" {
+			if !sameTerm(end, TLoop{acc, loop.ID}) {
+				c.Ob("C18.R4", name+"/guard", loop.Node.Pos()).Fail("the accumulator changes for an element that passed no kind test")
+				return
+			}
+			continue
+		}
+		if got[sel] {
+			c.Ob("C18.R4", name+"/guard", loop.Node.Pos()).Fail("kind %q is accumulated on two paths", sel)
+			return
+		}
+		got[sel] = true
+		aob := c.Ob("C18.R2", name+"/arm-"+sel, loop.Node.Pos())
+		b, ok := end.(TBin)
+		if !ok || b.Op != op {
+			aob.Fail("the accumulation for %s elements does not use the operator %s of this fold (found %s)", sel, op, c.termStr(end))
+			continue
+		}
+		operand := b.Y
+		if !sameTerm(b.X, TLoop{acc, loop.ID}) {
+			if !sameTerm(b.Y, TLoop{acc, loop.ID}) {
+				aob.Fail("the accumulation is not acc %s value", op)
+				continue
+			}
+			operand = b.X
+		}
+		if cv, ok := operand.(TConv); ok && types.Identical(cv.To, acc.Type()) && sel == "int" && !intFam {
+			operand = cv.X
+		}
+		T, ok := v.elemValue(operand, loop)
+		if !ok || c.kindOfType(T) != sel {
+			aob.Fail("the operand %s is not the tested %s value of the current element (converted to %s)", c.termStr(operand), sel, shortType(acc.Type()))
+			continue
+		}
+		aob.Ok("acc %s the tested %s value in %s", op, sel, shortType(acc.Type()))
+	}
+	c.Ob("C18.R4", name+"/selection", loop.Node.Pos()).Check(len(got) == len(wantArms), "folds exactly the element kinds "+sprint(keysOf(wantArms)), "folds kinds "+sprint(keysOf(got))+", expected "+sprint(keysOf(wantArms)))
+}
+
+func (c *Ctx) constNumberTerm(t Term) (float64, bool) {
+	k, ok := simplify(t).(TConst)
+	if !ok {
+		return 0, false
+	}
+	switch k.Val.Kind() {
+	case constant.Int, constant.Float:
+		f, _ := constant.Float64Val(constant.ToFloat(k.Val))
+		return f, true
+	}
+	return 0, false
+}
+
+func c18MinMax(c *Ctx, fd *ast.FuncDecl, name string, smaller, intFam bool) {
+	rob := c.Ob("C18.R2", name+"/reducer", fd.Pos())
+	paths, why := c.runPaths(fd)
+	if why != "" {
+		rob.Undecided("body outside the path vocabulary: %s", why)
+		return
+	}
+	v := c.view(fd)
+	// the fold call: the one effect on every path
+	var fold *TCall
+	for _, p := range paths {
+		for _, s := range p.Effects() {
+			if s.Kind == "call" && s.Call != nil && fold == nil {
+				fold = s.Call
+			} else if s.Kind == "call" && s.Call != nil && fold != nil && key(*s.Call) == key(*fold) {
+				continue
+			} else {
+				rob.Fail("unexpected effect %s", c.stepStr(s))
+				return
+			}
+		}
+	}
+	if fold == nil || fold.Fun == nil || fold.Recv == nil || !v.isSelf(fold.Recv) || len(fold.Args) != 2 {
+		rob.Fail("the aggregate is not a Reduce over the receiver itself")
 		return
 	}
 	wantReduce := "Reduce"
 	if intFam {
 		wantReduce = "ReduceInts"
 	}
-	c.Ob("C18.R4", name+"/fold", call.Pos()).Check(callee.Name() == wantReduce, "folds with "+wantReduce+" (selection decided by C14 on that method)", "folds with "+callee.Name()+", expected "+wantReduce)
+	c.Ob("C18.R4", name+"/fold", posOfNode(fold.Site)).Check(fold.Fun.Name() == wantReduce, "folds with "+wantReduce+" (selection decided by C14 on that method)", "folds with "+fold.Fun.Name()+", expected "+wantReduce)
 	// identity
-	ob := c.Ob("C18.R1", name+"/identity", call.Args[0].Pos())
-	tv, okc := c.Info.Types[call.Args[0]]
-	if !okc || tv.Value == nil {
-		ob.Undecided("identity is not a constant")
+	iob := c.Ob("C18.R1", name+"/identity", posOfNode(fold.Site))
+	if k, ok := simplify(fold.Args[0]).(TConst); !ok {
+		iob.Undecided("identity is not a constant")
 	} else {
-		f, _ := constant.Float64Val(constant.ToFloat(tv.Value))
+		f, _ := constant.Float64Val(constant.ToFloat(k.Val))
 		var good bool
 		var want string
+		lim := func(v32, v64 int64) constant.Value {
+			if c.intSize() == 8 {
+				return constant.MakeInt64(v64)
+			}
+			return constant.MakeInt64(v32)
+		}
 		switch {
 		case intFam && smaller:
-			sz := c.intSize()
-			lim := constant.MakeInt64(math.MaxInt32)
-			if sz == 8 {
-				lim = constant.MakeInt64(math.MaxInt64)
-			}
-			good, want = constant.Compare(tv.Value, token.EQL, lim), "math.MaxInt"
+			good, want = constant.Compare(constant.ToInt(k.Val), token.EQL, lim(math.MaxInt32, math.MaxInt64)), "math.MaxInt"
 		case intFam && !smaller:
-			sz := c.intSize()
-			lim := constant.MakeInt64(math.MinInt32)
-			if sz == 8 {
-				lim = constant.MakeInt64(math.MinInt64)
-			}
-			good, want = constant.Compare(tv.Value, token.EQL, lim), "math.MinInt"
+			good, want = constant.Compare(constant.ToInt(k.Val), token.EQL, lim(math.MinInt32, math.MinInt64)), "math.MinInt"
 		case smaller:
 			good, want = f >= math.MaxFloat64, ">= math.MaxFloat64"
 		default:
 			good, want = f <= -math.MaxFloat64, "<= -math.MaxFloat64"
 		}
-		ob.Check(good, "identity "+tv.Value.String()+" is "+want, "identity "+tv.Value.String()+" is not "+want+": elements beyond it are ignored")
+		iob.Check(good, "identity "+k.Val.String()+" is "+want, "identity "+k.Val.String()+" is not "+want+": elements beyond it are ignored")
 	}
-	// reducer body
-	if len(lit.Type.Params.List) == 0 {
-		c.Ob("C18.R2", name+"/reducer", lit.Pos()).Undecided("reducer without parameters")
+	lit, ok := fold.Args[1].(TLit)
+	fl, isFl := lit.Node.(*ast.FuncLit)
+	if !ok || !isFl {
+		rob.Undecided("the reducer is not a function literal")
 		return
 	}
-	var params []types.Object
-	for _, f := range lit.Type.Params.List {
+	var ps []types.Object
+	for _, f := range fl.Type.Params.List {
 		for _, nm := range f.Names {
-			params = append(params, c.Info.Defs[nm])
+			ps = append(ps, c.Info.Defs[nm])
 		}
 	}
-	if len(params) != 2 {
-		c.Ob("C18.R2", name+"/reducer", lit.Pos()).Undecided("reducer does not have two named parameters")
+	if len(ps) != 2 {
+		rob.Undecided("reducer does not have two named parameters")
 		return
 	}
-	accP, itemP := params[0], params[1]
-	// derived-from map: locals bound by `v, ok := item.(T)` derive from item
-	derived := map[types.Object]types.Object{accP: accP, itemP: itemP}
+	bodyPaths := c.NewSX().RunStmts(fl.Body.List, nil)
+	for _, bp := range bodyPaths {
+		if bp.Why != "" {
+			rob.Undecided("reducer outside the path vocabulary: %s", bp.Why)
+			return
+		}
+	}
+	// presence flag: a captured bool set to true on every path of the reducer
 	var present types.Object
-	presentFirst := false
-	for i, s := range lit.Body.List {
-		if as, ok := s.(*ast.AssignStmt); ok && len(as.Lhs) == 1 && len(as.Rhs) == 1 && as.Tok == token.ASSIGN && c.isConstBool(as.Rhs[0], true) {
-			present = c.obj(as.Lhs[0])
-			presentFirst = i == 0
-		}
-	}
-	ast.Inspect(lit.Body, func(n ast.Node) bool {
-		if as, ok := n.(*ast.AssignStmt); ok && len(as.Rhs) == 1 {
-			if ta, ok := unparen(as.Rhs[0]).(*ast.TypeAssertExpr); ok {
-				if src, ok := derived[c.obj(ta.X)]; ok && len(as.Lhs) >= 1 {
-					if o := c.obj(as.Lhs[0]); o != nil {
-						derived[o] = src
-					}
-				}
+	for i, bp := range bodyPaths {
+		var here types.Object
+		for o, t := range bp.Env {
+			if o.Pos() >= fl.Pos() && o.Pos() < fl.End() {
+				continue
+			}
+			if isConstBoolTerm(t, true) && types.Identical(o.Type().Underlying(), types.Typ[types.Bool]) {
+				here = o
 			}
 		}
-		return true
-	})
-	domainT := types.Typ[types.Float64]
-	if intFam {
-		domainT = types.Typ[types.Int]
+		if here == nil || (i > 0 && here != present) {
+			present = nil
+			break
+		}
+		present = here
 	}
-	// base strips value-preserving conversions into the fold's domain and assertions, returns the root param
-	var base func(e ast.Expr) types.Object
-	base = func(e ast.Expr) types.Object {
-		e = unparen(e)
-		switch x := e.(type) {
-		case *ast.Ident:
-			return derived[c.obj(x)]
-		case *ast.TypeAssertExpr:
-			return base(x.X)
-		case *ast.CallExpr:
-			if tv, ok := c.Info.Types[x.Fun]; ok && tv.IsType() && len(x.Args) == 1 && types.Identical(tv.Type, domainT) {
-				// only int -> float64 (exact for the comparison's purpose) or identity
-				at := c.typeOf(x.Args[0])
-				if at != nil && (types.Identical(at, domainT) || (!intFam && types.Identical(at, types.Typ[types.Int]))) {
-					return base(x.Args[0])
-				}
+	// numeric folding of the reducer
+	accKey, itemKey := key(TVar{ps[0]}), key(TVar{ps[1]})
+	floats := []float64{-3, -2.5, -1, -0.5, 0, 0.5, 1, 2.5, 3}
+	ints := []float64{-3, -1, 0, 1, 3}
+	type sample struct {
+		acc, item numVal
+	}
+	var samples []sample
+	if intFam {
+		for _, a := range ints {
+			for _, b := range ints {
+				samples = append(samples, sample{numVal{a, true}, numVal{b, true}})
 			}
 		}
-		return nil
+	} else {
+		for _, a := range floats {
+			for _, b := range floats {
+				samples = append(samples, sample{numVal{a, false}, numVal{b, false}})
+			}
+			for _, b := range ints {
+				samples = append(samples, sample{numVal{a, false}, numVal{b, true}})
+			}
+		}
 	}
-	arms := 0
-	dirOK := true
-	ast.Inspect(lit.Body, func(n ast.Node) bool {
-		is, ok := n.(*ast.IfStmt)
-		if !ok {
-			return true
+	bad, undec := "", ""
+	for _, sm := range samples {
+		matched := 0
+		for _, bp := range bodyPaths {
+			e := &numEnv{vals: map[string]numVal{accKey: sm.acc, itemKey: sm.item}}
+			holds := true
+			for _, cd := range bp.Conds() {
+				val, ok := e.cond(cd.T)
+				if !ok {
+					undec = e.fail
+					break
+				}
+				if val != cd.Truth {
+					holds = false
+					break
+				}
+			}
+			if undec != "" {
+				break
+			}
+			if !holds {
+				continue
+			}
+			matched++
+			if bp.End != "return" || len(bp.Vals) != 1 {
+				bad = "a reducer path does not return a value"
+				break
+			}
+			got, ok := e.num(bp.Vals[0])
+			if !ok {
+				if len(e.fail) > 6 && e.fail[:6] == "panic:" {
+					bad = "for acc=" + fmtNum(sm.acc) + ", element=" + fmtNum(sm.item) + " the reducer panics (" + e.fail + ")"
+				} else {
+					undec = e.fail
+				}
+				break
+			}
+			want := sm.acc.F
+			if (smaller && sm.item.F < want) || (!smaller && sm.item.F > want) {
+				want = sm.item.F
+			}
+			if got.F != want {
+				bad = "for acc=" + fmtNum(sm.acc) + ", element=" + fmtNum(sm.item) + " the reducer yields " + fmtF(got.F) + ", the " + map[bool]string{true: "smaller", false: "larger"}[smaller] + " is " + fmtF(want)
+				break
+			}
+			if !intFam && got.IsInt {
+				bad = "the reducer returns an int where the fold's accumulator is float64 (the next comparison or the final assertion panics)"
+				break
+			}
 		}
-		be, ok := unparen(is.Cond).(*ast.BinaryExpr)
-		if !ok || !isTok(be.Op, token.LSS, token.LEQ, token.GTR, token.GEQ) {
-			return true
+		if bad != "" || undec != "" {
+			break
 		}
-		arms++
-		ob := c.Ob("C18.R2", name+"/arm#"+itoa(arms), is.Pos())
-		lt, rt := c.typeOf(be.X), c.typeOf(be.Y)
-		if lt == nil || rt == nil || !types.Identical(lt, domainT) || !types.Identical(rt, domainT) {
-			ob.Fail("comparison is carried out in %s/%s, not in the fold's domain %s (a lossy conversion changes the order)", shortType(lt), shortType(rt), shortType(domainT))
-			dirOK = false
-			return true
+		if matched != 1 {
+			undec = "the reducer's paths are not exhaustive and exclusive for acc=" + fmtNum(sm.acc) + ", element=" + fmtNum(sm.item)
+			break
 		}
-		L, R := base(be.X), base(be.Y)
-		if L == nil || R == nil || L == R || !((L == accP && R == itemP) || (L == itemP && R == accP)) {
-			ob.Fail("comparison is not between the accumulator and the element (through value-preserving conversions only)")
-			dirOK = false
-			return true
-		}
-		thenRet, elseRet := singleReturn(is.Body), (*ast.ReturnStmt)(nil)
-		if eb, ok := is.Else.(*ast.BlockStmt); ok {
-			elseRet = singleReturn(eb)
-		}
-		if thenRet == nil || elseRet == nil || len(thenRet.Results) != 1 || len(elseRet.Results) != 1 {
-			ob.Undecided("arm is not `if a OP b { return x } else { return y }`")
-			dirOK = false
-			return true
-		}
-		T, E := base(thenRet.Results[0]), base(elseRet.Results[0])
-		if T == nil || E == nil || T == E {
-			ob.Fail("the two branches do not return the two compared operands")
-			dirOK = false
-			return true
-		}
-		less := be.Op == token.LSS || be.Op == token.LEQ
-		returnsSmaller := (less && T == L && E == R) || (!less && T == R && E == L)
-		returnsLarger := (!less && T == L && E == R) || (less && T == R && E == L)
-		switch {
-		case smaller && returnsSmaller, !smaller && returnsLarger:
-			ob.Ok("returns the %s of accumulator and element", map[bool]string{true: "smaller", false: "larger"}[smaller])
-		default:
-			ob.Fail("arm returns the %s operand; %s needs the %s on every arm", map[bool]string{true: "smaller", false: "larger"}[returnsSmaller], name, map[bool]string{true: "smaller", false: "larger"}[smaller])
-			dirOK = false
-		}
-		return true
-	})
-	wantArms := 2
-	if intFam {
-		wantArms = 1
 	}
-	c.Ob("C18.R2", name+"/arms", lit.Pos()).Check(arms == wantArms && dirOK, itoa(arms)+" comparison arm(s), all in the same direction", "expected "+itoa(wantArms)+" well-formed comparison arm(s), found "+itoa(arms))
-	// presence flag
-	ob3 := c.Ob("C18.R3", name+"/presence", fd.Pos())
-	if present == nil || !presentFirst {
-		ob3.Fail("the reducer does not set a presence flag unconditionally as its first statement")
+	switch {
+	case undec != "":
+		rob.Undecided("reducer cannot be folded numerically: %s", undec)
+	case bad != "":
+		rob.Fail("%s", bad)
+	default:
+		rob.Ok("on all %d (accumulator, element) samples — negative, fractional, int and float elements — the reducer returns the %s of the two in %s", len(samples), map[bool]string{true: "smaller", false: "larger"}[smaller], map[bool]string{true: "int", false: "float64"}[intFam])
+	}
+	// presence flag and result selection
+	pob := c.Ob("C18.R3", name+"/presence", fd.Pos())
+	if present == nil {
+		pob.Fail("the reducer does not set one presence flag on every path")
 		return
 	}
-	// final: if present { return acc } else { return 0 }
-	var accVar types.Object
-	for _, s := range fd.Body.List {
-		if as, ok := s.(*ast.AssignStmt); ok && len(as.Lhs) == 1 && len(as.Rhs) == 1 {
-			if containsNode(as.Rhs[0], call) {
-				accVar = c.obj(as.Lhs[0])
+	good := len(paths) == 2
+	for _, p := range paths {
+		conds := p.Conds()
+		if len(conds) != 1 || p.End != "return" || len(p.Vals) != 1 {
+			good = false
+			continue
+		}
+		lv, ok := conds[0].T.(TLoop)
+		if !ok || lv.Obj != present {
+			good = false
+			continue
+		}
+		if conds[0].Truth {
+			// the fold's result (possibly asserted to float64)
+			r := p.Vals[0]
+			if a, ok := r.(TAssert); ok {
+				r = a.X
 			}
+			rc, ok := r.(TCall)
+			good = good && ok && key(rc) == key(*fold)
+		} else {
+			f, ok := c.constNumberTerm(p.Vals[0])
+			good = good && ok && f == 0
 		}
 	}
-	last, _ := fd.Body.List[len(fd.Body.List)-1].(*ast.IfStmt)
-	good := false
-	if last != nil && accVar != nil && c.obj(last.Cond) == present {
-		tr := singleReturn(last.Body)
-		var er *ast.ReturnStmt
-		if eb, ok := last.Else.(*ast.BlockStmt); ok {
-			er = singleReturn(eb)
-		}
-		if tr != nil && er != nil && len(tr.Results) == 1 && len(er.Results) == 1 && c.obj(tr.Results[0]) == accVar {
-			if v, ok := c.constNumber(er.Results[0]); ok && v == 0 {
-				good = true
-			}
-		}
+	if good {
+		// the flag starts false
+		good = c.declaredZeroObj(fd, present)
 	}
-	// the flag must start false: declared without initialiser or with false
-	if pv, ok := present.(*types.Var); ok && good {
-		good = c.declaredZero(fd, pv)
+	pob.Check(good, "presence flag (initially false, set on every reducer invocation) selects between the fold result and 0", "result selection is not `if present { return fold } else { return 0 }` with a flag that starts false")
+}
+
+func fmtF(f float64) string {
+	return constant.MakeFloat64(f).String()
+}
+
+func fmtNum(v numVal) string {
+	if v.IsInt {
+		return "int " + fmtF(v.F)
 	}
-	ob3.Check(good, "presence flag (initially false) selects between the fold result and 0", "result selection is not `if present { return fold } else { return 0 }` with a flag that starts false")
+	return "float " + fmtF(v.F)
 }
 
 func singleReturn(b *ast.BlockStmt) *ast.ReturnStmt {
@@ -504,8 +512,8 @@ func (c *Ctx) constNumber(e ast.Expr) (float64, bool) {
 	return 0, false
 }
 
-// declaredZero: v is declared by `var v T` without initialiser, or with a false/0 constant.
-func (c *Ctx) declaredZero(fd *ast.FuncDecl, v *types.Var) bool {
+// declaredZeroObj: v is declared by `var v T` without initialiser, or with a false constant.
+func (c *Ctx) declaredZeroObj(fd *ast.FuncDecl, v types.Object) bool {
 	res := false
 	ast.Inspect(fd.Body, func(n ast.Node) bool {
 		switch x := n.(type) {
@@ -543,26 +551,18 @@ func c18Avg(c *Ctx) {
 		return
 	}
 	ob := c.Ob("C18.R3", "(*list).Avg", fd.Pos())
-	rets := returnsOf(fd.Body)
-	if len(fd.Body.List) != 1 || len(rets) != 1 || len(rets[0].Results) != 1 {
-		ob.Undecided("Avg is not a single return expression")
-		return
-	}
-	be, ok := unparen(rets[0].Results[0]).(*ast.BinaryExpr)
-	if !ok || be.Op != token.QUO {
-		ob.Fail("Avg is not a quotient")
-		return
-	}
-	num, ok1 := unparen(be.X).(*ast.CallExpr)
-	den, ok2 := unparen(be.Y).(*ast.CallExpr)
-	good := ok1 && ok2
+	paths, why := c.runPaths(fd)
+	v := c.view(fd)
+	good := why == "" && len(paths) == 1 && paths[0].End == "return" && len(paths[0].Vals) == 1 && len(paths[0].Effects()) == 0
 	if good {
-		ns, okn := unparen(num.Fun).(*ast.SelectorExpr)
-		good = okn && c.isSelf(fd, ns.X) && c.callee(num) != nil && c.callee(num).Name() == "Sum" && len(num.Args) == 0
-	}
-	if good {
-		tv, okd := c.Info.Types[den.Fun]
-		good = okd && tv.IsType() && types.Identical(tv.Type, types.Typ[types.Float64]) && len(den.Args) == 1 && c.isCountOfRecv(fd, den.Args[0])
+		b, ok := paths[0].Vals[0].(TBin)
+		good = ok && b.Op == token.QUO
+		if good {
+			nm, args, ok := v.selfCall(b.X)
+			good = ok && nm == "Sum" && len(args) == 0
+			cv, okc := b.Y.(TConv)
+			good = good && okc && types.Identical(cv.To, types.Typ[types.Float64]) && v.isCountOfRecv(cv.X)
+		}
 	}
 	ob.Check(good, "Avg = self.Sum() / float64(count of the receiver)", "Avg is not Sum()/float64(Count()) of the receiver")
 }
